@@ -115,10 +115,11 @@ const (
 	zzModeListJSON
 	zzModeForce
 	zzModeSummary
+	zzModeSibling // `all: deps [build, lint]` where lint fails: build may be cancelled mid-run
 	zzNModes
 )
 
-var zzModeNames = []string{"run", "dry", "status", "list-json", "force", "summary"}
+var zzModeNames = []string{"run", "dry", "status", "list-json", "force", "summary", "run-with-failing-sibling"}
 
 type zzHist struct {
 	p         *zzProject
@@ -128,6 +129,7 @@ type zzHist struct {
 	twoCmds   bool
 	label     string
 	target    string // task named in dry runs
+	sibling   bool   // the Taskfile of this step has the all/lint tasks
 	exit      map[string]uint8
 	ran       []string // probes started in the current step
 }
@@ -159,6 +161,12 @@ func (h *zzHist) taskfile() *ast.Taskfile {
 	if zz.Param("second_task", 0) == 1 {
 		tf.Tasks.Set("other", other)
 	}
+	if h.sibling {
+		lint := &ast.Task{Task: "lint", Location: t.Location, Vars: ast.NewVars(), Env: ast.NewVars(), Dir: h.p.root, Cmds: []*ast.Cmd{{Cmd: h.lintText()}}}
+		tf.Tasks.Set("lint", lint)
+		tf.Tasks.Set("all", &ast.Task{Task: "all", Location: t.Location, Vars: ast.NewVars(), Env: ast.NewVars(), Dir: h.p.root,
+			Deps: []*ast.Dep{{Task: "build"}, {Task: "lint"}}})
+	}
 	if h.target == "indir" {
 		// a task whose directory does not exist yet
 		indir := &ast.Task{Task: "indir", Location: t.Location, Vars: ast.NewVars(), Env: ast.NewVars(),
@@ -166,6 +174,13 @@ func (h *zzHist) taskfile() *ast.Taskfile {
 		tf.Tasks.Set("indir", indir)
 	}
 	return tf
+}
+
+func (h *zzHist) lintText() string {
+	if zz.Native() {
+		return "echo S:lint.0; sleep 0.2; exit 1"
+	}
+	return "hprobe lint.0 0"
 }
 
 func (h *zzHist) otherText() string {
@@ -181,6 +196,9 @@ func (h *zzHist) cmdText(k int, last bool) string {
 	id := zzProbeID("build", k)
 	if zz.Native() {
 		s := fmt.Sprintf("echo S:%s; test -f fail.%s && exit 3; ", id, id)
+		if h.sibling {
+			s += "sleep 1; "
+		}
 		if last && h.hasGen {
 			s += "echo built > out; "
 		}
@@ -204,6 +222,10 @@ func (h *zzHist) shell(ctx context.Context, opts *execext.RunCommandOptions) err
 	id := f[1]
 	h.ran = append(h.ran, id)
 	zz.Emit("S", id, 0)
+	if err := ctx.Err(); err != nil { // cancelled while running: killed
+		zz.Emit("K", id, 0)
+		return err
+	}
 	if st := h.exit[id]; st != 0 {
 		zz.Emit("F", id, int(st))
 		return interp.NewExitStatus(st)
@@ -238,6 +260,10 @@ func (h *zzHist) step(k int, mode int, yes bool, failCmd int) zzStepResult {
 			os.WriteFile(h.p.path("fail."+id), nil, 0o644)
 		}
 	}
+	h.sibling = mode == zzModeSibling
+	if h.sibling {
+		h.exit["lint.0"] = 1
+	}
 	h.ran = nil
 	zzRun = h.shell
 	zzEnviron = []string{"HOME=/h"}
@@ -264,6 +290,8 @@ func (h *zzHist) step(k int, mode int, yes bool, failCmd int) zzStepResult {
 	switch mode {
 	case zzModeRun:
 		err = e.Run(context.Background(), &Call{Task: "build"})
+	case zzModeSibling:
+		err = e.Run(context.Background(), &Call{Task: "all"})
 	case zzModeForce:
 		e.Force = true
 		err = e.Run(context.Background(), &Call{Task: "build"})
@@ -297,7 +325,18 @@ func (h *zzHist) step(k int, mode int, yes bool, failCmd int) zzStepResult {
 			nstarted++
 		}
 	}
-	r.complete = err == nil && nstarted == ncmd
+	nfinished := 0
+	for _, ev := range tr {
+		if ev.Kind == "F" && ev.Val == 0 && strings.HasPrefix(ev.ID, "build.") {
+			nfinished++
+		}
+	}
+	r.complete = nstarted == ncmd && (err == nil || (mode == zzModeSibling && nfinished == ncmd))
+	if zz.Native() && mode == zzModeSibling {
+		// natively the finish of a command is not reported: the build completed iff its
+		// last command produced the generated file / the run had no error
+		r.complete = err == nil
+	}
 	if readOnly {
 		r.changed = h.p.snapshot() != snap
 	}
@@ -314,7 +353,7 @@ func ZZ_H_History() {
 	}
 	methods := []string{"checksum", "timestamp"}
 	h.method = methods[zz.Choose("method", 2)]
-	h.hasPrompt = zz.Bool("has_prompt")
+	h.hasPrompt = zz.Param("sibling_history", 0) == 0 && zz.Bool("has_prompt")
 	h.hasGen = zz.Bool("has_generates")
 	h.twoCmds = zz.Param("two_cmds", 0) == 1 && zz.Bool("two_cmds")
 	h.p.put("a.src", "v0")
@@ -363,6 +402,16 @@ func ZZ_H_History() {
 			nfail = 3
 		}
 		failCmd := -1
+		if zz.Param("sibling_history", 0) == 1 {
+			// focused history: run next to a failing sibling, then run again
+			want := zzModeRun
+			if k == 0 {
+				want = zzModeSibling
+			}
+			zz.Assume(mode == want)
+		} else if mode == zzModeSibling {
+			zz.Assume(false) // covered by the focused history (registered separately)
+		}
 		if mode == zzModeRun || mode == zzModeForce {
 			failCmd = zz.Choose(fmt.Sprintf("fail%d", k), nfail) - 1
 		}
@@ -374,8 +423,24 @@ func ZZ_H_History() {
 		r := h.step(k, mode, yes, failCmd)
 		tag := fmt.Sprintf("%s/%s", h.method, zzModeNames[mode])
 		switch mode {
+		case zzModeSibling:
+			// build runs as a dependency next to a failing sibling: it may complete, be
+			// killed part-way, or be cancelled before it starts. No verdict is asserted in
+			// this step; only the ghost is updated (an attempt that did not complete
+			// invalidates, an untouched up-to-date task stays valid).
+			switch {
+			case r.started && r.complete:
+				okVersion = version
+				last = "success"
+			case r.started:
+				okVersion = -1
+				last = "cancelled-by-failing-sibling"
+			case !allowedSkip:
+				okVersion = -1
+				last = "cancelled-by-failing-sibling"
+			}
 		case zzModeRun, zzModeForce:
-			skipped := r.err == nil && !r.started
+			skipped := !r.started && r.err == nil
 			if prop == 4 && skipped {
 				zz.Assert(allowedSkip, "skip-only-after-a-successful-attempt-for-this-fingerprint/"+h.method+"/after-"+last)
 			}
